@@ -286,6 +286,20 @@ func ExecuteScenario(env *Env, sc *Scenario) (out *Outcome, err error) {
 		// C04 D1-D3, D5: every variant ends in the same bytes and saw the same calls
 		for vi := 1; vi < len(results); vi++ {
 			a, b := results[0].state, results[vi].state
+			if strings.HasPrefix(sc.Variants[vi].Name, "pair:") {
+				// two variants with a history of their own: compared with each other
+				if vi+1 < len(results) && strings.HasPrefix(sc.Variants[vi+1].Name, "pair:") && strings.HasSuffix(sc.Variants[vi].Name, ":fresh-processes") {
+					if f, why := diffStates(results[vi].state, results[vi+1].state); f != "" {
+						class := "generated-file-differs"
+						if f == "gengo.sum" {
+							class = "sum-differs"
+						}
+						out.Violations = append(out.Violations, Violation{Property: "C04", Oracle: "D3", Class: class + "/process-history",
+							Detail: fmt.Sprintf("%s vs %s: %s: %s", sc.Variants[vi].Name, sc.Variants[vi+1].Name, f, why), Variant: sc.Variants[vi+1].Name})
+					}
+				}
+				continue
+			}
 			if strings.HasPrefix(sc.Variants[vi].Name, "eventual:") {
 				// a failed run followed by the same run again: the same generated files in the end; gengo.sum
 				// records the tree the second run started from, which now holds outputs
